@@ -92,9 +92,16 @@ fn render_y(ag: &AG, kind: &str, settings: &serde_json::Map<String, Value>) -> S
     for t in &ag.tokens {
         s.push_str(&format!(" '{t}'"));
     }
-    s.push_str("\n%epp '");
-    s.push_str(&ag.tokens[0]);
-    s.push_str("' \"pretty \\\"0\\\"\"\n%%\n");
+    s.push('\n');
+    // %epp strings for the first tokens: quotes of both kinds, braces, comment openers, non-ASCII,
+    // the empty string (they end up as string literals in the generated module)
+    const EPPS: &[&str] = &["\"pretty \\\"0\\\"\"", "\"it's\"", "'say \"x\"'", "\"{x} #[y] {{\"", "\"/* */ // */\"", "\"\u{e9} \u{6f22} \u{1f600}\"", "\"\"", "\"r#\\\"raw\\\"#\""];
+    let neps = settings.get("epps").and_then(|v| v.as_u64()).unwrap_or(1) as usize;
+    let first = settings.get("epp_first").and_then(|v| v.as_u64()).unwrap_or(0) as usize;
+    for k in 0..neps.min(ag.tokens.len()) {
+        s.push_str(&format!("%epp '{}' {}\n", ag.tokens[k], EPPS[(first + k) % EPPS.len()]));
+    }
+    s.push_str("%%\n");
     let mut pidx = 0;
     for (ri, r) in ag.rules.iter().enumerate() {
         s.push_str(&r.name);
@@ -276,6 +283,10 @@ pub fn gen_pair(ch: &mut Choices, id: u64) -> Option<Pair> {
     }
     if ch.chance(1, 3) {
         settings.insert("reserved_rule".into(), json!(true));
+    }
+    if ch.chance(1, 2) {
+        settings.insert("epps".into(), json!(ch.range(0, 3)));
+        settings.insert("epp_first".into(), json!(ch.pick(8)));
     }
     let reserved = settings.contains_key("reserved_rule");
     let ytext = render_y(&ag, &kind, &settings);
